@@ -140,6 +140,8 @@ def _scalar_verdict(f, e):
     return 'R'
   v = dec(e)
   fv = float(v) if kc != 'int' else v
+  if kc == 'int' and f['kind'] != 'int' and abs(v) >= 2 ** 1024:
+    return 'R' if v < 0 else 'E'          # an integer beyond the float range in a float-typed field: docs silent
   if f['kind'] == 'int':
     if isinstance(fv, float) and (fv != fv or math.isinf(fv)):
       return 'R'
@@ -242,7 +244,8 @@ def scalar_grid(name):
        np.float64(INF)]
   if f['kind'] == 'int':
     b = f['lo']
-    g += [b - 1, b, b + 1, float(b - 1), float(b), float(b + 1), b + 0.5, b - 0.5] + _nb(float(b)) + [90, 90.0, 2 ** 62, 2.0 ** 62, -2 ** 62]
+    g += [b - 1, b, b + 1, float(b - 1), float(b), float(b + 1), b + 0.5, b - 0.5] + _nb(float(b)) + [90, 90.0, 2 ** 62, 2.0 ** 62, -2 ** 62,
+                                                                                                    10 ** 400, -10 ** 400, 2 ** 1024]
   else:
     for b in (f['lo'], f.get('hi')):
       if b is not None:
@@ -255,7 +258,7 @@ def pair_grid(name):
   import numpy as np
   f = FIELDS[name]
   if f['kind'] == 'ipair':
-    ends = [0, 1, 2, 3, 10 ** 30, 1.0, 2.0, 2.5, 0.0, -1, INF, NAN, -INF, True, None, 'a', np.int64(2), math.nextafter(1.0, 0), math.nextafter(1.0, 2)]
+    ends = [0, 1, 2, 3, 10 ** 30, 10 ** 400, 1.0, 2.0, 2.5, 0.0, -1, INF, NAN, -INF, True, None, 'a', np.int64(2), math.nextafter(1.0, 0), math.nextafter(1.0, 2)]
   elif name == 'treatment_share_range':
     ends = [0, 0.0, -0.0, 5e-324, 0.1, 0.3, 0.5, math.nextafter(1.0, 0), 1.0, 1, math.nextafter(1.0, 2), -0.1, INF, NAN, -INF, True,
             None, 'a', np.float64(0.4)]
@@ -359,6 +362,8 @@ def _special_num(name, e):
     return True
   f = FIELDS[name]
   bounds = {'int': [f.get('lo')], 'float': [f.get('lo'), f.get('hi')], 'ipair': [1], 'fpair': [0.0, 1.0]}[f['kind']]
+  if isinstance(v, int) and abs(v) >= 2 ** 1024:
+    return True
   for b in bounds:
     if b is None:
       continue
